@@ -411,7 +411,7 @@ pub const PLAIN_NAMES: [&str; 6] = ["a", "b", "c", "d", "e", "f"];
 /// Names made of word characters that are neither letters, ASCII digits nor `_`: combining marks
 /// (NFD accents, Indic / Thai vowel signs), connector punctuation, zero-width joiners, letter
 /// numbers. `\\w` covers all of them, so each is ONE identifier ("cafe" + U+0301 is not "cafe").
-pub const MARK_NAMES: [&str; 8] = ["cafe\u{301}", "cafe", "हिंदी", "a\u{203f}b", "a\u{200d}b", "Ⅷ", "x\u{300}y", "กิ"];
+pub const MARK_NAMES: [&str; 12] = ["cafe\u{301}", "cafe", "हिंदी", "a\u{203f}b", "a\u{200d}b", "Ⅷ", "x\u{300}y", "กิ", "p'", "p''", "p'q", "''p"];
 pub const FANCY_NAMES: [&str; 12] = ["a", "b'", "_x", "x1", "hello_world", "é", "λx", "中", "X", "a1b2", "'q", "longer_name_9"];
 
 /// Every spelling of every token kind (for soups / mutations).
